@@ -23,6 +23,8 @@ from sa.pyfront import Program
 from sa.symex import Interp
 
 RULES = {
+    "R-C03-o": "the flat cell number the array cube hands to fill() is the SUM over all dimensions of the strided 1-D coordinate slices (reduce(operator.add, one slice per dimension)), None only when there is no dimension",
+    "R-C03-n": "xfunc.bins presents every cell of range(size) with the mask coordinates == u (and, without a size, every distinct value with its rows): the per-cell fill loops of the array cube rest on it",
     "R-C03-m": "aggregate constructors do not overwrite the caller's arrays (imported from the C17 frame analysis): NaN-seeding or zero-filling the caller's own array changes what every later computation over it - the other cube, a group-by, the next statistic - sees",
     "R-C03-l": "xcube strides are row-major: multipliers[k] = product of the extents after k (evaluated symbolically on a shape of 1, 2 and 3 dimensions), matching the C-order reshape of the regions",
     "R-C03-k": "the array cube's fill methods write through C-order reshape views of the regions (xfunc.flat_regions): flat cell i is the cell of strided coordinate i, and the writes land in the cube's arrays",
@@ -283,6 +285,48 @@ def rule_l(prog, rep):
                   witness={"inputs": "xcube over two dimensions of different extents, e.g. 2 x 3: counts land in transposed positions"})
 
 
+def rule_o(prog, rep):
+    from sa import tasks
+    info = tasks.analyse_cube(prog, "xcubes", "xcube", max_depth=2)
+    I = info.I
+    where = info.fi.fq
+    fills = [e for e in I.events if e.kind == "call" and e["method"] == "fill" and e["args"]]
+    if not fills:
+        rep.undecided("R-C03-o", where, "coordinates passed to fill", "no fill() call found in the task")
+        return
+    seen = set()
+    for e in fills:
+        c = e["args"][0]
+        if c in seen:
+            continue
+        seen.add(c)
+        w = "%s@%d" % (where, e.line)
+        for a in tm.alts(c):
+            if a == tm.NONE:
+                continue
+            cons = "flat coordinates = sum of the strided slices of all dimensions"
+            if a.op == "call" and tm.callee_name(a) in ("functools.reduce", "builtins.sum", "numpy.sum", "numpy.add.reduce") and a.args[1]:
+                if tm.callee_name(a) == "functools.reduce":
+                    fn, seq = a.args[1][0], (a.args[1][1] if len(a.args[1]) > 1 else None)
+                    fname = tm.dotted(fn)
+                    okf = fname in ("operator.add", "operator.iadd", "numpy.add")
+                else:
+                    seq, okf, fname = a.args[1][0], True, tm.callee_name(a)
+                per_dim = seq is not None and seq.op == "comp" and tm.contains(seq, lambda x: x.op == "iter")
+                if okf and per_dim:
+                    rep.proved("R-C03-o", w, cons, "%s over one slice per dimension" % fname)
+                elif not okf:
+                    rep.violated("R-C03-o", w, cons, "the slices are combined with %s, not added: a row's flat cell number is no longer sum(coordinate x stride)" % fname,
+                                 witness={"inputs": "any xcube with two dimensions"})
+                else:
+                    rep.undecided("R-C03-o", w, cons, "the reduced sequence is not recognised as one slice per dimension")
+            elif a.op == "sub" and tm.is_const(a.args[1]):
+                rep.violated("R-C03-o", w, cons, "only one dimension's slice (%s) is used: the other dimensions do not contribute to the cell number" % tm.show(a)[:40],
+                             witness={"inputs": "any xcube with two dimensions: every row lands in the first column of its row of cells"})
+            else:
+                rep.undecided("R-C03-o", w, cons, "form not recognised: %s" % tm.show(a)[:60])
+
+
 def rule_g(prog, rep):
     from sa import tasks
     info = tasks.analyse_cube(prog, "xcubes", "xcube")
@@ -320,6 +364,11 @@ def main(tier):
     for rule, status, where, cons, detail, wit in CT.items:
         rep.add(rule, where, cons, status, detail, True, wit)
     rep.floor("R-C03-h", 4, nt)
+    CB = AT.Collector()
+    nb = AT.rule_bins(prog, CB, "R-C03-n")
+    for rule, status, where, cons, detail, wit in CB.items:
+        rep.add(rule, where, cons, status, detail, True, wit)
+    rep.floor("R-C03-n", 3, nb + 1)
     CV = AT.Collector()
     nv = AT.rule_flat_views(prog, CV, "R-C03-k")
     for rule, status, where, cons, detail, wit in CV.items:
@@ -337,6 +386,7 @@ def main(tier):
     rep.floor("R-C03-i", 20, nd)
     rule_g(prog, rep)
     rule_l(prog, rep)
+    rule_o(prog, rep)
     for rule, status, where, cons, detail, wit in C.items:
         rep.add(rule, where, cons, status, detail, True, wit)
     for m in list(AT._cache.values()):
